@@ -404,7 +404,8 @@ class BackwardScheduler(IScheduler):
             if days > max_steps:
                 raise RuntimeError("Can't calculate")
 
-        reserved = resource_usage.reserved(resource, date)
+        reserved = resource_usage.reserved(resource, date) if self.__balance_resources \
+            else resource_usage.reserved(resource, date, task)
         percent = reserved / resource.get_available_units(date, task)
 
         return date + timedelta(days=1) - timedelta(hours=24 * percent)
